@@ -50,7 +50,7 @@ inductive Err where
   | pasteAtEnd              -- "'##' cannot appear at end of macro expansion"
   | pasteInvalid            -- "pasting forms '..', an invalid token"
   | lexError                -- tokenize() rejected the pasted text (unclosed comment / literal, invalid character)
-  | nullDeref               -- the C code dereferences NULL (paste of `/` `/`; `x ##` at the end of a body with x empty)
+  | nullDeref               -- the C code dereferences NULL (paste of `/` `/`: `//` is a comment, tokenize returns only EOF)
   | macroNameNotIdent       -- "macro name must be an identifier"
   | expectedIdent           -- "expected an identifier"
   | errorDirective          -- #error
@@ -233,6 +233,12 @@ structure St where
   defs : List (String × Macro) := []
   counter : Nat := counterStart
   file : String := "t.c"
+  /-- ghost: some function-like expansion so far had a replacement list / argument combination outside
+      `NoPlacemarkerChain` (the region of known finding C09-placemarker).  Never read by the expander. -/
+  pmHit : Bool := false
+  /-- ghost: some function-like expansion stringized an argument outside `StringizeLiteralSafe`
+      (the region of known finding C09-stringize-backslash-outside-literal).  Never read by the expander. -/
+  bsHit : Bool := false
   deriving Repr
 
 /-- `find_macro` -/
@@ -276,7 +282,7 @@ def readMacroDefinition (st : St) (ts : List Tok) : Except Err (St × List Tok) 
     else
       match r with
       | lp :: r2 =>
-        if !lp.hasSpace && lp.text == "(" then
+        if !lp.hasSpace && !lp.atBol && lp.text == "(" then
           match readMacroParams .first r2 with
           | .error e => .error e
           | .ok (params, va, r3) =>
@@ -358,6 +364,47 @@ def hasVarargs (args : List MacroArg) : Bool :=
   | some a => !a.toks.isEmpty
   | none => false
 
+/-- the argument bound to the parameter this token names is empty -/
+def emptyParam (args : List MacroArg) (t : Tok) : Bool :=
+  match findArg args (some t) with
+  | some a => a.toks.isEmpty
+  | none => false
+
+/-- four consecutive tokens `p ## q ##` of a replacement list with `p` and `q` parameters whose arguments are both
+    empty: C11 6.10.3.3 needs a placemarker here (placemarker ## placemarker = placemarker, which is then the left
+    operand of the next `##`); chibicc has no placemarker token -/
+def hasPlacemarkerChain (args : List MacroArg) : List Tok → Bool
+  | [] => false
+  | p :: tl =>
+    (match tl with
+     | h1 :: q :: h2 :: _ => emptyParam args p && h1.text == "##" && emptyParam args q && h2.text == "##"
+     | _ => false) || hasPlacemarkerChain args tl
+
+/-- **the region outside known finding C09-placemarker** (decidable: a Boolean function of body and arguments) -/
+def NoPlacemarkerChain (body : List Tok) (args : List MacroArg) : Prop := hasPlacemarkerChain args body = false
+
+instance (body : List Tok) (args : List MacroArg) : Decidable (NoPlacemarkerChain body args) := by
+  unfold NoPlacemarkerChain; infer_instance
+
+/-- `quote_string` escaping is what C11 6.10.3.2p2 asks for on this token: it is a string literal or a character
+    constant, or it contains neither `\` nor `"` -/
+def strSafeTok (t : Tok) : Bool :=
+  t.kind == .str || t.kind == .other || !(t.text.toList.any fun c => c == '\\' || c == '"')
+
+/-- some `# p` of the replacement list stringizes an argument with a `\` (or `"`) outside literals -/
+def hasUnsafeStringize (args : List MacroArg) : List Tok → Bool
+  | [] => false
+  | h :: tl =>
+    (match tl with
+     | p :: _ => h.text == "#" && (match findArg args (some p) with | some a => !(a.toks.all strSafeTok) | none => false)
+     | _ => false) || hasUnsafeStringize args tl
+
+/-- **the region outside known finding C09-stringize-backslash-outside-literal** -/
+def StringizeLiteralSafe (body : List Tok) (args : List MacroArg) : Prop := hasUnsafeStringize args body = false
+
+instance (body : List Tok) (args : List MacroArg) : Decidable (StringizeLiteralSafe body args) := by
+  unfold StringizeLiteralSafe; infer_instance
+
 /-! ## `#` and `##` -/
 
 /-- `join_tokens(tok, NULL)` -/
@@ -432,16 +479,16 @@ def substLoop (lx : String → LexOne) (pp : PreExpand) (isObj : Bool) :
     | some a =>
       -- a parameter followed by "##": its argument is copied without macro replacement
       if textIs rest.head? "##" then
-        match a.toks with
-        | [] =>
-          match rest.drop 1 with
-          | [] => .error .nullDeref          -- copy_token(EOF) is linked in, then `tok = rhs->next` is NULL
-          | rhs :: rest3 =>
+        match rest.drop 1 with
+        | [] => .error .pasteAtEnd
+        | rhs :: rest3 =>
+          match a.toks with
+          | [] =>
             match findArg args (some rhs) with
             | some a2 => substLoop lx pp isObj n st args rest3 (a2.toks.reverse ++ acc)
             | none => substLoop lx pp isObj n st args rest3 (rhs :: acc)
-        | _ :: _ =>
-          substLoop lx pp isObj n st args rest ((setHeadFlags a.toks tok.atBol tok.hasSpace).reverse ++ acc)
+          | _ :: _ =>
+            substLoop lx pp isObj n st args rest ((setHeadFlags a.toks tok.atBol tok.hasSpace).reverse ++ acc)
       else
         -- a parameter: the completely macro-replaced argument (a copy is expanded, once)
         match a.expanded with
@@ -517,6 +564,8 @@ def expandMacro (lx : String → LexOne) (pp : PreExpand) (st : St) (tok : Tok) 
     | .error e => .error e
     | .ok (args, rparen, rest') =>
       let hs := hidesetUnion (hidesetIntersection tok.hide rparen.hide) [tok.text]
+      let st := { st with pmHit := st.pmHit || hasPlacemarkerChain args mbody,
+                          bsHit := st.bsHit || hasUnsafeStringize args mbody }        -- ghost
       match subst lx pp st mbody args false with
       | .error e => .error e
       | .ok (body, st') => .ok (some (spliceBody (setOrigin (addHideset body hs) tok) rest' tok, st'))
@@ -597,6 +646,10 @@ def initSt (file : String := "t.c") : St := { defs := initDefs, file := file }
 /-- the whole preprocessor on a token list, from the table of `init_macros` -/
 def preprocess (fuel : Nat) (ts : List Tok) (file : String := "t.c") : Except Err (List Tok) :=
   (preprocess2 Lex.lexOne fuel (initSt file) ts).map (·.1)
+
+/-- ... together with the ghost flag `pmHit` -/
+def preprocessX (fuel : Nat) (ts : List Tok) (file : String := "t.c") : Except Err (List Tok × Bool × Bool) :=
+  (preprocess2 Lex.lexOne fuel (initSt file) ts).map fun (out, st) => (out, st.pmHit, st.bsHit)
 
 /-- the same from an empty table (what most theorems and witnesses use) -/
 def expand (fuel : Nat) (defs : List (String × Macro)) (ts : List Tok) : Except Err (List Tok) :=
